@@ -36,7 +36,7 @@ type RunReport struct {
 // seqProfile tunes the generator for a property.
 func seqProfile(prop string, g *Gen, cfg *Config, rng *SplitMix) (steps int) {
 	steps = 12 + rng.Intn(18)
-	clocks := []string{"fine", "fine", "coarse", "second", "leap"}
+	clocks := []string{"fine", "fine", "coarse", "second", "leap", "back"}
 	cfg.Clock = clocks[rng.Intn(len(clocks))]
 	switch prop {
 	case "C06":
@@ -80,11 +80,13 @@ func seqProfile(prop string, g *Gen, cfg *Config, rng *SplitMix) (steps int) {
 		g.BadBias = 45
 		g.W["sequence"] = 14
 		g.AimPct = 10
+		g.IOPct = 12
 	case "C11":
 		g.RawPct = 25
 		g.W["plan"] = 30
 		g.Text = "unicode"
 		g.BadBias = 25
+		g.IOPct = 6
 	case "C14":
 		g.W["compact"] = 10
 		g.W["new_task"] = 25
@@ -182,6 +184,7 @@ func runSeqGenerated(bin, prop string, seed uint64) *RunReport {
 		}
 	}
 	mergedCycle := false
+	tornPlan := prop == "C11" && rng.Chance(1, 4)
 	tornAt := -1
 	if prop == "C08" && rng.Chance(1, 4) {
 		// a claim whose append was torn after its first line: the task is todo
@@ -193,6 +196,14 @@ func runSeqGenerated(bin, prop string, seed uint64) *RunReport {
 		st := g.Next(r.M)
 		if i == tornAt {
 			st = Step{Disk: &DiskOp{Kind: "tail_partial_batch"}}
+		}
+		if tornPlan && st.Cmd != nil && st.Cmd.Op == "plan" && i > 0 {
+			// the store plan is applied to carries the torn tail of a killed
+			// append (a pre-existing store like any other)
+			tornPlan = false
+			ds := Step{Disk: &DiskOp{Kind: "tail_fragment", Arg: `{"type":"new_task","ts":"2030-01-01T00:00:00Z","data":{"id":"QQQQQQ","uu`}}
+			sc.Steps = append(sc.Steps, ds)
+			r.ExecStep(ds)
 		}
 		if prop == "C09" && len(r.M.Pruned) > 0 && rng.Chance(1, 8) {
 			st = Step{Disk: &DiskOp{Kind: "merge_pruned", N: rng.Intn(64), Pos: rng.Intn(1 << 20)}}
@@ -260,6 +271,7 @@ func (r *Run) ExecStep(st Step) {
 				}
 			}
 		}
+		r.pendingIO = st.IO
 		r.DoCmd(*st.Cmd)
 		r.W.Rand.forced4 = nil // a forced draw is meant for this command only
 	}
@@ -394,7 +406,7 @@ func planFor(prop string) *PropPlan {
 				Run:    func(bin string, seed uint64) *RunReport { return runConcSample(bin, prop, seed, thoroughTier) },
 				Replay: ReplayConc})
 		}
-		if prop == "C07" || prop == "C16" {
+		if prop == "C07" || prop == "C16" || prop == "C08" {
 			p.Modes = append(p.Modes, Mode{Name: "conc", Quick: 16, Deep: 400,
 				Run:    func(bin string, seed uint64) *RunReport { return runConcSample(bin, prop, seed, thoroughTier) },
 				Replay: ReplayConc})
